@@ -111,7 +111,7 @@ FormNames == {"inv_fn", "inv_fnptr", "inv_functor_l", "inv_functor_c", "inv_func
               "inv_memdata_derived",
               "fr_fn", "fr_functor_l", "fr_functor_c", "fr_copy", "fr_lambda",
               "rw_call_l", "rw_call_c", "rw_identity", "rw_fn",
-              "bf_l", "bf_c", "bf_r", "bf_memfn", "bf_fn",
+              "bf_l", "bf_c", "bf_r", "bf_lv", "bf_memfn", "bf_fn",
               "nf_l", "nf_c", "nf_r", "nf_fn",
               "ipf_sig3", "ipf_sig3_copy"}
 
@@ -129,7 +129,7 @@ FormExpect(form, x) ==
       [] form = "inv_memdata_robj" -> MemData(x, 3)
       \* reference_wrapper: get(), conversion, copy all designate the wrapped object; assignment rebinds
       [] form = "rw_identity" -> [calls |-> <<>>, ret |-> <<1, 1, 1, 1>>]
-      [] form = "bf_l" -> Bind(x, 1)
+      [] form \in {"bf_l", "bf_lv"} -> Bind(x, 1)
       [] form = "bf_c" -> Bind(x, 2)
       [] form = "bf_r" -> Bind(x, 3)
       \* bind_front(fn, b)() : the free function receives the bound value
@@ -196,8 +196,8 @@ TupExpect(k, ty, ty2, op, x) ==
       [] op = "cat" ->
             [calls |-> <<>>,
              ret |-> (p \o q) \o (IF x.mode = 3 THEN MovedSeq(ty, p) ELSE p) \o (IF x.mode2 = 3 THEN MovedSeq(ty2, q) ELSE q)]
-      \* structured bindings by reference: read both, write q[1] through the first name
-      [] op = "sb" -> [calls |-> <<>>, ret |-> p \o <<q[1]>> \o SubSeq(p, 2, Len(p))]
+      \* structured bindings by reference: the names read the element values and designate the elements themselves
+      [] op = "sb" -> [calls |-> <<>>, ret |-> p \o <<1>>]
       \* make_pair / make_tuple / forward_as_tuple: values preserved
       [] op = "make" -> [calls |-> <<>>, ret |-> p]
 
